@@ -128,6 +128,21 @@ func boundaryCases() []GCase {
 			return obsWith([]GRes{r}, []GProp{p}, hist)
 		})})
 	}
+	// ... and both forks in ONE round: a straggler (processed first, or last) still reports the log on the old fork, the
+	// others report it on the new fork next to a conditional result - every observation is valid on its own, the new
+	// fork's result and the conditional one are each vouched for identically by three oracles
+	for _, stragglerAt := range []int{0, 3} {
+		stragglerAt := stragglerAt
+		add(GCase{Family: "log-on-two-forks-in-one-round", N: 4, F: 1, Seq: 15, Digest: 1, Obs: nObs(4, func(i int) GObs {
+			r := honest(1, 5200, 9)
+			c := honest(0, 5201, 0)
+			if i == stragglerAt {
+				return obsWith([]GRes{r}, nil, hist)
+			}
+			r.Fork = 1
+			return obsWith([]GRes{r, c}, nil, hist)
+		})})
+	}
 	// perform data far above what a registry accepts: three disjoint pairs of oracles vouch for ten results of 70 KB
 	// each; every observation is valid and under its size limit, all thirty results are at quorum and far below the cap
 	// of 100 - agreement is by votes, never by a byte budget
